@@ -90,7 +90,7 @@ func runC05(c *Ctx) {
 	cio := newConnIO(p)
 	if fn := p.Func("transports/obfs4:(*obfs4Conn).readPackets"); fn != nil {
 		faultRule(c, "R5", p, cio, map[*ssa.Function]bool{fn: true, p.Func("transports/obfs4:(*obfs4Conn).clientHandshake"): true, p.Func("transports/obfs4:(*obfs4Conn).serverHandshake"): true,
-			p.Func("transports/obfs3:(*obfs3Conn).findPeerMagic"): true, p.Func("transports/scramblesuit:(*ssConn).readPackets"): true, p.Func("transports/scramblesuit:(*ssConn).clientHandshake"): true})
+			p.Func("transports/obfs3:(*obfs3Conn).findPeerMagic"): true, p.Func("transports/scramblesuit:(*ssConn).readPackets"): true, p.Func("transports/scramblesuit:(*ssConn).clientHandshake"): true}, 3)
 	}
 	// R7: direction separation (ciphertext of one direction must not open in the other)
 	keySplitRule(c, p, "R7", false)
